@@ -90,7 +90,8 @@ def assemble(records, covered, rng, per_script):
                 r2 = second.get(key)
                 if r2 is None or r2["t0"] != r["t1"]:
                     raise vk.Inconclusive("TLC printed no second cleanup for %s a2=%s adv=%d" % (show(key0), a2, adv))
-                cands.append((key, {"a2": a2, "adv": adv, "exp": canon(r2["d1"]), "tmp": r2["t1"], "viol": r2["viol"]}))
+                cands.append((key, {"a2": a2, "adv": adv, "exp": canon(r2["d1"]), "exp_raw": r2["d1"], "tmp": r2["t1"],
+                                    "viol": r2["viol"]}))
         new = [c for c in cands if c[0] not in covered]
         old = [c for c in cands if c[0] in covered]
         rng.shuffle(old)
@@ -100,9 +101,25 @@ def assemble(records, covered, rng, per_script):
             chosen = (new + old)[:per_script]
         for key, _ in chosen:
             covered.add(key)
-        scripts.append({"a": r["a"], "m": r["m"], "tmp": r["t0"], "init": r["d0"],
-                        "exp": key0, "exptmp": r["t1"], "viol": r["viol"], "sec": [c[1] for c in chosen]})
+        scripts.append({"a": r["a"], "m": r["m"], "tmp": r["t0"], "init": r["d0"], "exp": key0, "exp_raw": r["d1"],
+                        "exptmp": r["t1"], "viol": r["viol"], "sec": [c[1] for c in chosen]})
     return scripts, len(second)
+
+
+def to_replay(sc):
+    """a script with TLC's predictions as stored in replays/*.json (bin/check C32 --replay PATH)."""
+    return {"a": sc["a"], "m": sc["m"], "tmp": sc["tmp"], "init": sc["init"], "exp": sc["exp_raw"],
+            "exptmp": sc["exptmp"], "viol": sc["viol"],
+            "sec": [{"a2": x["a2"], "adv": x["adv"], "exp": x["exp_raw"], "tmp": x["tmp"], "viol": x["viol"]}
+                    for x in sc["sec"]]}
+
+
+def from_replay(path):
+    sc = json.load(open(path))["replay"]["script"]
+    sc["exp_raw"], sc["exp"] = sc["exp"], canon(sc["exp"])
+    for x in sc["sec"]:
+        x["exp_raw"], x["exp"] = x["exp"], canon(x["exp"])
+    return sc
 
 
 def emit(ctx, name, covered, rng, per_script, sel=None, lo=1, hi=0):
@@ -197,7 +214,10 @@ def run(ctx):
 
 def body(ctx, rng, procs, bg, built):
 
-    if ctx.thorough:
+    if ctx.replay:
+        chunks = [("replay", None, 1, 0)]
+        vsample = None
+    elif ctx.thorough:
         nchunks = 8
         size = NINIT // nchunks
         chunks = [("c%d" % c, None, c * size, (c + 1) * size - 1 if c < nchunks - 1 else NINIT - 1)
@@ -213,7 +233,10 @@ def body(ctx, rng, procs, bg, built):
           "alt": 0, "known_shape": 0, "old_assigned_purged": 0, "by_sig": {}}
     for tag, sel, lo, hi in chunks:
         t0 = time.time()
-        scripts, nsecond = emit(ctx, "tlc_" + tag, covered, rng, per_script, sel, lo, hi)
+        if ctx.replay:
+            scripts, sel = [from_replay(ctx.replay)], [0]
+        else:
+            scripts, nsecond = emit(ctx, "tlc_" + tag, covered, rng, per_script, sel, lo, hi)
         want = len(sel) if sel is not None else hi - lo + 1
         if len(scripts) != want:
             raise vk.Inconclusive("TLC produced %d scripts for %d initial states" % (len(scripts), want))
@@ -254,7 +277,7 @@ def judge(ctx, rng, tag, scripts, events, vsample, st):
             return
         reported.add((i, j, sig))
         st["by_sig"][sig] = st["by_sig"].get(sig, 0) + 1
-        ctx.violation(sig, detail)
+        ctx.violation(sig, detail, replay={"script": to_replay(scripts[i])})
 
     for i, sc in enumerate(scripts):
         evs = events[i]
